@@ -176,6 +176,25 @@ func runC10(p *core.Prog, r *core.Result) {
 			}
 		}
 		if dirV == nil {
+			// the probe may be a helper of the package that stats the path it is given
+			for _, c := range core.Calls(fp) {
+				h := core.Callee(c)
+				if h == nil || h.Pkg != fp.Pkg || h.Blocks == nil {
+					continue
+				}
+				for _, hc := range core.Calls(h) {
+					if !core.IsCallTo(hc, "os", "Stat") {
+						continue
+					}
+					for i, prm := range h.Params {
+						if hc.Common().Args[0] == ssa.Value(prm) && i < len(c.Common().Args) && dirV == nil {
+							dirV = c.Common().Args[i]
+						}
+					}
+				}
+			}
+		}
+		if dirV == nil {
 			r.Unk("R10.1", "internal/mvs.(*Resolver).FetchProject#cache-dir", p.Pos(fp.Pos()), "cache probe (os.Stat) not found")
 		} else {
 			d := paramDeps(fp, dirV)
@@ -255,23 +274,70 @@ func runC10(p *core.Prog, r *core.Result) {
 					statCall = c.(ssa.Instruction)
 				}
 			}
+			if statCall == nil {
+				// the probe helper's call site
+				for _, c := range core.Calls(fp) {
+					for i := range c.Common().Args {
+						if h := core.Callee(c); h != nil && h.Pkg == fp.Pkg && c.Common().Args[i] == dirV && statCall == nil {
+							statCall = c.(ssa.Instruction)
+						}
+					}
+				}
+			}
 			if statCall != nil {
-				validated = p.FactsAt(statCall).Find(func(cv ssa.Value, val bool) bool {
-					b, ok := cv.(*ssa.BinOp)
-					if !ok || !((b.Op == token.EQL && val) || (b.Op == token.NEQ && !val)) {
+				// the requirement parameter of FetchProject, and what stands for it inside a helper predicate
+				var reqP *ssa.Parameter
+				for _, prm := range fp.Params {
+					if n, ok := prm.Type().(*types.Named); ok && n.Obj().Name() == "RequirementConfig" {
+						reqP = prm
+					}
+				}
+				isReq := func(v ssa.Value) bool {
+					if reqP == nil {
 						return false
+					}
+					if v == ssa.Value(reqP) {
+						return true
+					}
+					if ld, ok := v.(*ssa.UnOp); ok && ld.Op == token.MUL {
+						if s := core.SingleStore(ld.X); s == ssa.Value(reqP) {
+							return true
+						}
+					}
+					return false
+				}
+				for _, f := range xfacts(p, statCall) {
+					b, ok := f.Cond.(*ssa.BinOp)
+					if !ok || !((b.Op == token.EQL && f.Val) || (b.Op == token.NEQ && !f.Val)) {
+						continue
+					}
+					host := b.Parent()
+					prefix := ""
+					if host == fp && reqP != nil {
+						prefix = reqP.Name()
+					} else {
+						for _, q := range host.Params {
+							if isReq(f.Arg(q)) {
+								prefix = q.Name()
+							}
+						}
+					}
+					if prefix == "" {
+						continue
 					}
 					fromVersionMajor := func(x ssa.Value) bool {
 						return core.DependsOn(x, core.SliceOpts{Stores: true, ThroughCall: func(*ssa.Call) bool { return true }}, func(y ssa.Value) bool {
 							c, ok := y.(*ssa.Call)
-							return ok && core.IsCallTo(c, "golang.org/x/mod/semver", "Major") && paramDeps(fp, c.Call.Args[0])["p.Version"]
+							return ok && core.IsCallTo(c, "golang.org/x/mod/semver", "Major") && paramDeps(host, c.Call.Args[0])[prefix+".Version"]
 						})
 					}
 					fromPathSuffix := func(x ssa.Value) bool {
-						return paramDeps(fp, x)["p.Path"] && !fromVersionMajor(x)
+						return paramDeps(host, x)[prefix+".Path"] && !fromVersionMajor(x)
 					}
-					return fromVersionMajor(b.X) && fromPathSuffix(b.Y) || fromVersionMajor(b.Y) && fromPathSuffix(b.X)
-				})
+					if fromVersionMajor(b.X) && fromPathSuffix(b.Y) || fromVersionMajor(b.Y) && fromPathSuffix(b.X) {
+						validated = true
+					}
+				}
 			}
 			how := "the whole project path (including a major-version suffix) enters the cache directory name"
 			if !dWhole["p.Path"] && validated {
@@ -445,14 +511,22 @@ func runC10(p *core.Prog, r *core.Result) {
 	if rp := need(p, r, "R10.5", "internal/mvs", "Resolver", "resolveProject"); rp != nil {
 		ok := false
 		var at ssa.Instruction
-		core.Instrs(rp, func(in ssa.Instruction) {
-			st, isSt := in.(*ssa.Store)
-			if !isSt || !core.IsField(st.Addr, pkgMvs, "mvsProject", "Requirements") {
-				return
+		// listOK: the slice value is grown by append inside a loop over slices.Sorted(maps.Keys(config.Requirements)),
+		// here or in a helper of the module that returns it
+		var listOK func(val ssa.Value, depth int) bool
+		listOK = func(val ssa.Value, depth int) bool {
+			if hc, isCall := val.(*ssa.Call); isCall && depth < 2 {
+				if h := core.Callee(hc); h != nil && core.InModule(h) && h.Blocks != nil && h.Signature.Results().Len() == 1 {
+					rets := core.ReturnsOf(h)
+					all := len(rets) > 0
+					for _, ret := range rets {
+						all = all && listOK(ret.Results[0], depth+1)
+					}
+					return all
+				}
 			}
-			at = st
-			// the stored slice is grown by append inside a loop over slices.Sorted(maps.Keys(config.Requirements))
-			for v := range core.BackwardSlice(st.Val, core.SliceOpts{}) {
+			good := false
+			for v := range core.BackwardSlice(val, core.SliceOpts{}) {
 				c, isC := v.(*ssa.Call)
 				if !isC {
 					continue
@@ -481,8 +555,19 @@ func runC10(p *core.Prog, r *core.Result) {
 					return isCC && core.Callee(cc) != nil && strings.HasPrefix(core.CalleeKey(core.Callee(cc)), "slices.Sort")
 				})
 				if fromSortedKeys && p.LoopIndexCoversAll(ia.Index, ia.X, c, func(a, b ssa.Value) bool { return a == b }) && c.Block() == ia.Block() {
-					ok = true
+					good = true
 				}
+			}
+			return good
+		}
+		core.Instrs(rp, func(in ssa.Instruction) {
+			st, isSt := in.(*ssa.Store)
+			if !isSt || !core.IsField(st.Addr, pkgMvs, "mvsProject", "Requirements") {
+				return
+			}
+			at = st
+			if listOK(st.Val, 0) {
+				ok = true
 			}
 		})
 		if at == nil {
